@@ -250,7 +250,7 @@ CHECKS = {
              'reuses the layer effects of Viewer.tla; impossible traces (missing, duplicate, stale layer, ...) must be rejected.',
         note='Bounded: 1-3 datasets, 1-3 groups; viewer operations only outside hub delay blocks; sessions with stand-alone subsets are '
              'not saved/restored in the model (a restore turns them into groups by design); a picker may select any remaining '
-             'choice when its selection disappears. Two open known findings (KF-C18-1, KF-C18-2). Qt/Jupyter front-ends are other repositories.',
+             'choice when its selection disappears. One open known finding (KF-C18-1). Qt/Jupyter front-ends are other repositories.',
         technique='TLA+ spec + TLC; behaviour replay into real viewers and combo helpers (spec->code) and TLC trace validation of recorded viewers (code->spec)',
         design='7/C18'),
 }
